@@ -3,6 +3,7 @@ package props
 import (
 	"fmt"
 	"go/ast"
+	"go/token"
 	"go/types"
 	"sort"
 	"strings"
@@ -838,4 +839,48 @@ func swappedArgSites(p *core.Prog, pkgs, calleePkgs []string) (sites []site, bad
 		}
 	}
 	return sites, bad
+}
+
+// loopEarlyExits lists the statements inside a loop body that leave the loop other than by a return or by the loop
+// running out: goto, a labeled break whose label is not inside the body, an unlabeled break that is not absorbed by an
+// inner for/range/select/switch.
+func loopEarlyExits(c *core.Ctx, loopBody *ast.BlockStmt) []string {
+	var exits []string
+	var walk func(n ast.Node, breakable bool)
+	walk = func(n ast.Node, breakable bool) {
+		ast.Inspect(n, func(nd ast.Node) bool {
+			switch x := nd.(type) {
+			case *ast.FuncLit:
+				return false
+			case *ast.ForStmt, *ast.RangeStmt, *ast.SelectStmt, *ast.SwitchStmt, *ast.TypeSwitchStmt:
+				if nd == n {
+					return true
+				}
+				// an unlabeled break inside belongs to that statement
+				walk(nd, false)
+				return false
+			case *ast.BranchStmt:
+				switch {
+				case x.Tok == token.GOTO:
+					exits = append(exits, "goto @"+c.P.Pos(x.Pos()))
+				case x.Tok == token.BREAK && x.Label != nil:
+					inside := false
+					ast.Inspect(loopBody, func(m ast.Node) bool {
+						if ls, ok := m.(*ast.LabeledStmt); ok && ls.Label.Name == x.Label.Name {
+							inside = true
+						}
+						return true
+					})
+					if !inside {
+						exits = append(exits, "break "+x.Label.Name+" @"+c.P.Pos(x.Pos()))
+					}
+				case x.Tok == token.BREAK && breakable:
+					exits = append(exits, "break @"+c.P.Pos(x.Pos()))
+				}
+			}
+			return true
+		})
+	}
+	walk(loopBody, true)
+	return exits
 }
